@@ -223,6 +223,69 @@ def sample_point(case, rng, out_shape=None):
     return p
 
 
+def special_points_check(case, seed):
+    """Bounded, native (float64): the symbolic proof explores the sides of a comparison strictly, ties have measure zero -- so what the backward does AT a tie with a constant
+    (an operand element exactly 0) is evaluated here: one operand at a time gets exact zeros in every other position, the library's gradient is compared with central finite
+    differences of the real forward wherever the forward is smooth in that coordinate (one-sided differences agree); at a kink (relu at 0, a tie inside a max window) nothing is
+    demanded, where the forward or a difference quotient is not finite (a pole) the point is skipped.  Counted as bounded evaluations (`faithful`), a mismatch is a reproduced failure."""
+    import random
+    out = {"points": 0, "failure": None}
+    if case.pre is not None:
+        return out
+    rng = random.Random("special|%s|%d" % (repr(sorted(case.key.items(), key=lambda kv: kv[0])), seed))
+    for leaf in [l for l in case.leaves if l.domain == "any" and l.shape and l.requires_grad][:2]:
+        names = var_names(leaf.name, leaf.shape)
+        if len(names) > 64:
+            continue
+        try:
+            p = sample_point(case, rng, None)
+            for n in names[::2]:
+                p[n] = 0.0
+            with np.errstate(all="ignore"):
+                f0 = native_forward(case, p)
+                if not np.all(np.isfinite(f0)):
+                    continue
+                for n in var_names("g", f0.shape):
+                    p[n] = rng.choice([-1, 1]) * rng.uniform(0.3, 2.0)
+                o, grads, g = native_run(case, p)
+                gi = grads[leaf.name]
+                if gi is None or not np.all(np.isfinite(gi)):
+                    continue
+                gq = g
+                scale, bad = 1.0, None
+                for k_, n in enumerate(names):
+                    idx = np.unravel_index(k_, leaf.shape)
+                    hh = 1e-6 * max(1.0, abs(p[n]))
+                    pp, pm = dict(p), dict(p)
+                    pp[n] += hh
+                    pm[n] -= hh
+                    fp_, fm_ = native_forward(case, pp), native_forward(case, pm)
+                    if fp_.shape != f0.shape or fm_.shape != f0.shape or not (np.all(np.isfinite(fp_)) and np.all(np.isfinite(fm_))):
+                        continue
+                    dplus, dminus = float(np.sum(gq * (fp_ - f0))) / hh, float(np.sum(gq * (f0 - fm_))) / hh
+                    central = 0.5 * (dplus + dminus)
+                    sc = max(1.0, abs(dplus), abs(dminus))
+                    got = float(gi[idx])
+                    tol = 2e-4 * sc
+                    if abs(dplus - dminus) > tol:
+                        continue        # a kink in this coordinate (relu at 0, a tie inside a max window ...): the set of valid subgradients is not an interval of one-sided
+                                        # slopes once the element takes part in several kinks, so nothing is demanded here
+                    if abs(got - central) <= tol:
+                        continue
+                    bad = (list(idx), got, central, dplus, dminus)
+                    break
+            out["points"] += 1
+            if bad:
+                out["failure"] = {"obligation": "%s.backward.post[%s]" % (case.name, leaf.name),
+                                  "what": "at a point with exact zeros in operand %s, element %s of d%s is %r; finite differences of the real forward give %r (from the right %r, from the left %r)" %
+                                          (leaf.name, bad[0], leaf.name, bad[1], bad[2], bad[3], bad[4]),
+                                  "reproduced": True, "replay": {"inputs": p, "element": bad[0], "actual": bad[1], "expected_between": [bad[4], bad[3]], "oracle": "one-sided finite differences of the real forward (float64)"}}
+                return out
+        except Exception:
+            continue            # completion at special values is C05's / C09's business
+    return out
+
+
 def close(a, b, scale=1.0):
     return abs(a - b) <= TOL * max(1.0, abs(a), abs(b), scale)
 
@@ -404,6 +467,12 @@ def run_vcase(case, seed=0, case_timeout=300, want_post=True):
         for k in ("obligations", "discharged", "backends", "paths", "solver_s", "failures", "undecided", "errors",
                   "notes", "status", "faithful", "sample", "eps_mode"):
             res[k] = final[k]
+        if want_post and case.expect == "vjp" and res["status"] == "ok" and not res["failures"] and not res["errors"]:
+            sp = special_points_check(case, seed)
+            res["faithful"] += sp["points"]
+            if sp["failure"]:
+                res["obligations"] += 1
+                res["failures"].append(sp["failure"])
     except _Timeout:
         res["undecided"].append({"obligation": case.name + ".case", "reason": "case timeout %ds" % case_timeout})
     except PathBudgetExceeded as e:
